@@ -1,14 +1,156 @@
-"""C11 — bump arena: op-history correspondence between theories/Bump.v (extracted) and
-src/arena/bump.rs driven through the Allocator API and the guarded accessors."""
+"""C11 — bump arena: op-history correspondence between theories/Bump.v + theories/BumpVec.v
+(extracted) and src/arena/bump.rs driven through the Allocator API and the guarded accessors,
+and src/arena/string.rs driven through its public API (container ops K*, interleaved with the
+raw block ops in the same arena)."""
+import importlib.util
 import os
 import common
+
+EXTRA_COQ_TARGETS = ["extract/ExtractBumpVec.vo"]
 
 TRUSTED_EXTRA = [
     "C11: commit/decommit system calls modelled as always succeeding; usize arithmetic modelled in unbounded Z (sizes < 2^63)",
 ]
 ASSUMPTIONS = [
     "client histories use power-of-two alignments, non-negative sizes, grow/shrink only of live blocks, shrink only of the tail block",
+    "container histories skip a container op whose worst-case request might not fit the reservation (an allocation failure inside Vec aborts the process); "
+    "shrink_to_fit only on a container that is the last block (API contract); string ranges are snapped to char boundaries (the API asserts them)",
 ]
+TRUSTED_EXTRA.append(
+    "C11 containers: the growth policy of alloc::raw_vec (amortized max(2*cap, len+additional, 8|4|1); exact len+additional; "
+    "with_capacity/clone exact) is modelled in BumpVec.v and checked only by the differential run; fmt::Write / format_args! "
+    "are taken to issue one write_str per \"{}\" argument")
+
+# history op -> items of the translator's surface list (translator/gen_arenastr.py) it drives
+OP_API = {
+    "KN": ["ArenaString::new_in", "ArenaString::with_capacity_in"],
+    "KF": ["ArenaString::from_str", "ArenaString::from_utf8_unchecked", "ArenaString::from_utf8_lossy_owned",
+           "ArenaString::from_utf8_lossy"],
+    "KA": ["arena_format!", "ArenaString as fmt::Write::write_str"],
+    "KD": ["ArenaString: Clone (derived)"],
+    "KP": ["ArenaString::push_str", "ArenaString as fmt::Write::write_str", "ArenaString::as_mut_vec"],
+    "KC": ["ArenaString::push", "ArenaString as fmt::Write::write_char"],
+    "KR": ["ArenaString::push_repeat"],
+    "KV": ["ArenaString::reserve"],
+    "KE": ["ArenaString::reserve_exact"],
+    "KX": ["ArenaString::replace_range", "Vec<T, A> as ReplaceRange<T>::replace_range", "fn vec_replace_impl (private)"],
+    "KO": ["ArenaString::replace_once_in_place", "Vec<T, A> as ReplaceRange<T>::replace_range", "fn vec_replace_impl (private)"],
+    "KS": ["ArenaString::shrink_to_fit"],
+    "KZ": ["ArenaString::clear"],
+    # read by the oracle after every op
+    "*": ["ArenaString::len", "ArenaString::capacity", "ArenaString::as_bytes"],
+}
+
+
+# driven, but not on every path
+PARTIAL = {
+    "ArenaString::from_utf8_lossy": "only the all-valid outcome (borrows, no allocation) via from_utf8_lossy_owned; the replacing "
+                                    "branch (new_in + reserve + push_str per chunk) is not driven",
+    "ArenaString::from_utf8_lossy_owned": "only with valid UTF-8 (wraps the vector)",
+    "Vec<T, A> as ReplaceRange<T>::replace_range": "only T = u8 through ArenaString (the trait is not exported from the crate)",
+}
+
+
+def string_api():
+    spec = importlib.util.spec_from_file_location("gen_arenastr", os.path.join(common.VERIF, "translator", "gen_arenastr.py"))
+    mod = importlib.util.module_from_spec(spec)
+    spec.loader.exec_module(mod)
+    return mod.api(common.REPO)
+
+
+KSIZES = [0, 1, 2, 3, 4, 5, 7, 8, 9, 15, 16, 17, 31, 32, 33, 63, 64, 65, 100, 127, 128, 129, 255, 256, 257, 1000,
+          4095, 4096, 4097]
+KBIG = [32767, 32768, 32769, 65535, 65536, 65537, 70000, 131071, 131072]
+MB = ["\u00e9", "\u20ac", "\U0001F600", "\u00df", "a", "Z", " ", "-"]
+HUGE = 1 << 60
+
+
+def ksize(rng, big=0.06):
+    r = rng.random()
+    if r < big:
+        return rng.choice(KBIG) + rng.choice([0, 0, -8, 8])
+    if r < 0.75:
+        return rng.choice(KSIZES)
+    return rng.randint(0, 300)
+
+
+def kdata(rng, n):
+    if n <= 0:
+        return "-"
+    if n <= 96 and rng.random() < 0.25:
+        t = ""
+        while len(t.encode()) < n:
+            t += rng.choice(MB)
+        return "x" + t.encode().hex()
+    return "p%d:%d" % (rng.randint(0, 94), n)
+
+
+def gen_khistory(rng, hid, tier):
+    """Container history: ArenaString / Vec<u32> ops interleaved with raw allocations, so that
+    a container is / is not the most recent block when it has to grow."""
+    cap = rng.choice([65536, 131072, 131072, 262144, 1 << 20, 1 << 22])
+    n = rng.randint(6, 45 if tier == "quick" else 150)
+    lines = ["H %d %d" % (hid, cap)]
+    kinds = {}
+    vi = lambda: rng.randint(0, 5)
+    for _ in range(n):
+        r = rng.random()
+        if r < 0.12:
+            lines.append("KF %d %s" % (rng.randint(0, 2), kdata(rng, ksize(rng))))
+        elif r < 0.17:
+            lines.append("KN %d %d" % (rng.choice([0, 0, 0, 2]), rng.choice([0, 0, 1, 7, 8, 9]) if rng.random() < 0.7 else ksize(rng)))
+        elif r < 0.20:
+            lines.append("KA %s" % kdata(rng, ksize(rng)))
+        elif r < 0.24:
+            lines.append("KD %d" % vi())
+        elif r < 0.38:
+            lines.append("KP %d %d %s" % (vi(), rng.randint(0, 2), kdata(rng, ksize(rng))))
+        elif r < 0.43:
+            lines.append("KC %d %d %d" % (vi(), rng.randint(0, 1), rng.choice([65, 97, 126, 0xE9, 0x20AC, 0x1F600, 0x7FF, 0x800, 0xFFFD])))
+        elif r < 0.47:
+            lines.append("KR %d %d %d" % (vi(), rng.choice([32, 120, 0xE9, 0x20AC, 0x1F600]), rng.choice([0, 1, 2, 3, 7, 8, 9, 40, 1000, 21845, 21846, 65536])))
+        elif r < 0.53:
+            lines.append("%s %d %d" % (rng.choice(["KV", "KE"]), vi(), rng.choice([0, 0, 1, 1, 2]) if rng.random() < 0.5 else ksize(rng)))
+        elif r < 0.69:
+            form = rng.choice([0, 0, 0, 1, 2, 3, 4, 5, 6])
+            a = rng.randint(0, 40) if rng.random() < 0.8 else ksize(rng, 0.2)
+            b = a + (rng.choice([0, 0, 1, 2, 3, 5, 8, 20]) if rng.random() < 0.85 else ksize(rng, 0.2))
+            if form in (2, 4):
+                a = 0
+            if form in (3, 4):
+                b = HUGE
+            if rng.random() < 0.05:
+                b = rng.randint(0, a)          # reversed / empty range
+            d = rng.choice([0, 1, 2, 3, 5, 8, 9, 14, 17, 33]) if rng.random() < 0.75 else ksize(rng, 0.15)
+            lines.append("KX %d %d %d %d %s" % (vi(), form, a, b, kdata(rng, d)))
+        elif r < 0.76:
+            a = rng.randint(0, 60)
+            lines.append("KO %d %d %d %s" % (vi(), a, a + rng.choice([0, 1, 1, 2, 3, 5, 9]),
+                                              kdata(rng, rng.choice([0, 1, 2, 4, 9, 18, 40]) if rng.random() < 0.8 else ksize(rng, 0.15))))
+        elif r < 0.79:
+            lines.append("KS %d" % vi())
+        elif r < 0.81:
+            lines.append("KZ %d" % vi())
+        elif r < 0.91:
+            sz = rng.choice([1, 8, 64, 100, 255]) if rng.random() < 0.8 else rng.choice(SIZES)
+            lines.append("%s %d %d" % ("A" if rng.random() < 0.8 else "Z", sz, rng.choice([0, 0, 1, 3, 4, 6])))
+        elif r < 0.94:
+            lines.append("W %d %d" % (rng.randint(0, 8), rng.randint(0, 250)))
+        elif r < 0.955:
+            lines.append("G %d %d %d" % (rng.randint(0, 8), rng.choice(SIZES[:12]), rng.randint(0, 1)))
+        elif r < 0.97:
+            lines.append("RB %d" % rng.randint(0, 8))
+        elif r < 0.98:
+            lines.append("R %d" % rng.randint(0, 300000))
+        elif r < 0.988:
+            lines.append("B")
+        elif r < 0.995:
+            lines.append("E")
+        else:
+            lines.append("D")
+        k = lines[-1].split()[0]
+        kinds[k] = kinds.get(k, 0) + 1
+    return lines, kinds
 
 SIZES = [0, 1, 7, 8, 9, 63, 64, 128, 129, 160, 161, 256, 257, 1000, 4095, 4096, 4097,
          65535, 65536, 65537, 131072]
@@ -49,6 +191,9 @@ def gen_history(rng, hid, tier):
     return lines, kinds
 
 
+LAST_TAGS = []
+
+
 def run_pair(env, name, text, dbg, release=False):
     inp = os.path.join(env.work, name + ".in")
     open(inp, "w").write(text)
@@ -58,6 +203,9 @@ def run_pair(env, name, text, dbg, release=False):
     li = open(oi).read().splitlines() if rc1 == 0 and os.path.exists(oi) else None
     if li is None:
         return None, None, o1
+    # " #tag" at the end of a line is a comment of the harness (how a container's buffer changed)
+    LAST_TAGS[:] = [l.split(" #", 1)[1] if " #" in l else "" for l in li]
+    li = [l.split(" #", 1)[0] for l in li]
     # the model needs the reservation's base address (alignment is of absolute addresses):
     # take it from the implementation's header lines
     bases = [l.split("base=")[1] for l in li if l.startswith("H ")]
@@ -69,7 +217,7 @@ def run_pair(env, name, text, dbg, release=False):
                 l = l + " " + bases[k]
                 k += 1
             f.write(l + "\n")
-    rc2, o2 = common.sh([common.NSMODEL, "bump", "1" if dbg else "0", minp, om], timeout=900)
+    rc2, o2 = common.sh([common.NSMODEL, "bumpvec", "1" if dbg else "0", minp, om], timeout=900)
     lm = open(om).read().splitlines() if rc2 == 0 and os.path.exists(om) else None
     return li, lm, (o1 if rc1 else "") + (o2 if rc2 else "")
 
@@ -96,7 +244,7 @@ def split_histories(inp_lines, out_lines):
 
 
 def oracle_flags(line):
-    return [w for w in ("CORRUPT", "MISALIGNED", "OUTOFBOUNDS", "OVERLAP") if w in line]
+    return [w for w in ("CORRUPT", "MISALIGNED", "OUTOFBOUNDS", "OVERLAP", "CONTENT", "LENGTH") if w in line]
 
 
 def shrink_history(env, hist, dbg, release, pred):
@@ -140,6 +288,14 @@ def correspond(env, searching=False, model=True):
         for k, v in kinds.items():
             kinds_total[k] = kinds_total.get(k, 0) + v
         hists.append(ls)
+    # container histories (src/arena/string.rs through its public API, same arena as raw blocks)
+    n_khist = (220 if env.tier == "quick" else 15000) * (4 if searching else 1)
+    for _ in range(n_khist):
+        ls, kinds = gen_khistory(rng, len(hists), env.tier)
+        for k, v in kinds.items():
+            kinds_total[k] = kinds_total.get(k, 0) + v
+        hists.append(ls)
+    buffer_events = {}     # "<op> <how the container's buffer changed>" -> count (implementation side)
     failures = []
     disagreements = []
     evaluations = 0
@@ -169,7 +325,19 @@ def correspond(env, searching=False, model=True):
                 continue
             hs, oi = split_histories([l for h in part for l in h], li)
             _, om = split_histories([], lm)
-            for h, a, b in zip(hs, oi, om):
+            tags = list(LAST_TAGS)
+            relocs = []
+            pos = 0
+            for h, a in zip(hs, oi):
+                r = 0
+                for opl, tg in zip(h[1:], tags[pos + 1:pos + len(a)]):
+                    if tg:
+                        key = "%s %s" % (opl.split()[0], tg)
+                        buffer_events[key] = buffer_events.get(key, 0) + 1
+                        r += tg == "reloc"
+                pos += len(a)          # a history stops at its first oracle failure
+                relocs.append(r)
+            for h, a, b, nreloc in zip(hs, oi, om, relocs):
                 evaluations += 1
                 flags = [f for l in a for f in oracle_flags(l)]
                 if (a != b or flags) and not flags and len(disagreements) >= 2:
@@ -204,23 +372,45 @@ def correspond(env, searching=False, model=True):
                 else:
                     ops = [l.split()[0] for l in h[1:]]
                     fails = sum(1 for l in a if l.startswith("blk 0"))
-                    if len(set(ops)) >= 4 and any(o in ops for o in ("G", "R", "RB", "E")):
+                    if any(o.startswith("K") for o in ops):
+                        if len(set(ops)) >= 4 and nreloc >= 1:
+                            nontrivial.add(common.chash("\n".join(h[1:])))
+                    elif len(set(ops)) >= 4 and any(o in ops for o in ("G", "R", "RB", "E")):
                         nontrivial.add(common.chash("\n".join(h[1:])))
                     if len(samples) < 3 and len(h) < 14:
                         samples.append({"history": h, "impl_output": a})
             if failures:
                 break
+    # which items of src/arena/string.rs's surface the histories drive (enumerated from the source)
+    try:
+        items, flags = string_api()
+        driven = set(x for k, v in OP_API.items() if k == "*" or kinds_total.get(k) for x in v)
+        surface = {
+            "items": len(items),
+            "exercised": sorted(n for n, _ in items if n in driven),
+            "exercised_partially": {n: PARTIAL[n] for n, _ in items if n in driven and n in PARTIAL},
+            "not_exercised_may_allocate": sorted(n for n, a in items if a and n not in driven),
+            "not_exercised_no_allocation": sorted(n for n, a in items if not a and n not in driven),
+            "mapped_but_absent_from_source": sorted(driven - set(n for n, _ in items)),
+            "source_shape": flags,
+        }
+    except Exception as e:  # the translator step reports the same problem as a broken obligation
+        surface = {"error": str(e)}
     return {
         "evaluations": evaluations,
         "distinct_nontrivial": len(nontrivial),
         "rule": "random op histories on real arenas (capacities 64 KiB..4 MiB, sizes around 0/8/128/256/4 KiB/64 KiB/capacity); "
                 "non-trivial = distinct op sequence with >= 4 op kinds including a grow or a reset/release; every op's returned "
                 "(offset,len), offset(), commit, live count and sampled-content checksum compared with the extracted model; full "
-                "byte-for-byte shadow ledger checked on the implementation after every op",
+                "byte-for-byte shadow ledger checked on the implementation after every op; plus container histories "
+                "(ArenaString / Vec<u32> ops of src/arena/string.rs interleaved with raw blocks; every container's contents "
+                "compared with a plain Vec<u8> shadow after every op, its buffer is a ledger block; (address,len,capacity) compared "
+                "with BumpVec.v; non-trivial = >= 4 op kinds and at least one growth that relocated a container)",
         "samples": samples,
         "failures": failures,
         "disagreements": disagreements,
-        "extra": {"op_histogram": kinds_total, "profiles": ["debug"] + (["release"] if env.tier == "thorough" else [])},
+        "extra": {"op_histogram": kinds_total, "container_buffer_events": dict(sorted(buffer_events.items())),
+                  "string_rs_surface": surface, "profiles": ["debug"] + (["release"] if env.tier == "thorough" else [])},
     }
 
 
